@@ -75,8 +75,9 @@ GEN = {"C06", "C07", "C13"}
 GEN_TEXT = (" Generator protocol (DESIGN.md 3.5): generator forms suspended / interleaved / abandoned / interrupted by a raising callback, the graph and later traversals compared "
             "with the reference in each situation.")
 EXTRA_TEXT = {
-    "C10": " SPLICE-ORDER compares byte streams and includes real tuples (saved by a transcription of pickle's save_tuple under protocols 4/1/0, also on reference cycles: defect D20, repaired) and payloads of 64 KiB that the recursive pickler writes straight to the file.",
+    "C10": " SPLICE-ORDER: the stand-in pickler emits a byte stream (real tuples and frozensets saved by transcriptions of pickle's save_tuple / save_frozenset, also on reference cycles - defects D20, D21, repaired; payloads of 64 KiB written straight to the file); the oracle is what an unpickler makes of the stream (kinds, order, sharing).",
     "C11": " BUILD-SCALE: a key listing n neighbours, n keys (every third row empty, its key named by nobody), an n x n matrix, at the sizes the tree names and a default size.",
+    "C15": " Variants: network_kwargs directed=True, user attributes named like class-level names of the link classes, pyvis' own assertions compiled away (python -O).",
     "C20": " randgraph is also evaluated at the counts the tree itself names (size constants harvested from its source).",
 }
 
@@ -97,6 +98,11 @@ def main():
             if pid in GEN:
                 text += GEN_TEXT
             text += EXTRA_TEXT.get(pid, "")
+            if pid in ("C01", "C02", "C03", "C11", "C19"):
+                text += (" Interpreter modes (DESIGN.md 3.6): for a tree that calls warnings.warn() the mutator obligations are evaluated again with warnings turned into errors; a call "
+                         "that such a warning ends half-way must leave what the statement requires after a raising call.")
+            if pid in ("C01", "C03", "C11", "C12"):
+                text += " For a tree with assert statements or __debug__ the obligations are evaluated once more as under python -O."
             note = T[pid][4] if len(T[pid]) > 4 else NOTE_AE
             checks.append({
                 "property_id": pid,
